@@ -298,7 +298,16 @@ def rule_typesweep(ctx) -> RuleResult:
             q = a.id
         elif SHARED not in vals:
             return [("no", f0, where, f"removes from {sorted(map(str, vals))}: no shared node")]
-        tests = deciding_tests(g, site, q, {"const:" + q: SHARED} if q else None)
+        qfacts = {"const:" + q: SHARED} if q else None
+        if q:
+            # loop-invariant tests on the container read once into a flag (`may_be_used = rtype == "Types"`): the flag is as settled
+            # as the test it stands for
+            for _ in range(2):
+                for nm, val in defs.items():
+                    v = tv(val, q, qfacts)
+                    if v is not None:
+                        qfacts["truthy:" + nm] = v
+        tests = deciding_tests(g, site, q, qfacts)
         if tests is None:
             return [("no", f0, where, f"'{SHARED}' is kept away from the removal by the tests on the container")]
         key_param = None
@@ -312,7 +321,7 @@ def rule_typesweep(ctx) -> RuleResult:
                 gate = {r for t in ev for r in names_in(t.ast, node, defs) & own}
                 if not gate:
                     return [("ok", f0, where, f"'{SHARED}' reaches the removal: decided by a test on the identifier (line {ev[0].lineno})")]
-                out, base = [], {"const:" + q: SHARED} if q else {}
+                out, base = [], dict(qfacts) if q else {}
                 for caller, cc in call_sites(f0):
                     a2 = passed(f0, cc, q) if q else ast.Constant(SHARED)
                     if a2 is None or (q and caller.node is node and isinstance(a2, ast.Name) and a2.id == q):
